@@ -347,4 +347,146 @@ theorem allocated_area_of_dissection (sqrt : α → α) (εA : α) (iz : Bool) (
     ← dissection_overlapSum Rs _ hD (shapeOf sqrt m), List.map_map]
   rfl
 
+/-! ### exact tilings: the allocated area on a die with blockages and fixed modules -/
+
+/-- overlap is additive over an exact tiling of a rectangle (pairwise non-overlapping tiles inside `R` whose areas add
+    up to the area of `R` — the conclusion of C01 for the die; the tiling need not be a guillotine one). -/
+theorem tiling_overlap (R : Rect α) (tiles : List (Rect α)) (hR : 0 ≤ R.w ∧ 0 ≤ R.h)
+    (hpw : tiles.Pairwise NoOverlap) (hpos : ∀ c ∈ tiles, 0 ≤ c.w ∧ 0 ≤ c.h)
+    (hin : ∀ c ∈ tiles, Inside c R) (harea : (tiles.map Rect.area).sum = R.area)
+    (s : Rect α) (hs : 0 ≤ s.w ∧ 0 ≤ s.h) :
+    (tiles.map fun c => c.areaOverlap s).sum = R.areaOverlap s :=
+  InitAlloc.tiling_overlap R tiles hR hpw hpos hin harea s hs
+
+theorem sum_overlapSum_swap (cs rs : List (Rect α)) :
+    (cs.map fun c => overlapSum c rs).sum = (rs.map fun r => (cs.map fun c => c.areaOverlap r).sum).sum := by
+  induction rs with
+  | nil => simp [overlapSum_nil]
+  | cons r rs ih => simp only [overlapSum_cons, List.sum_map_add, ih, List.map_cons, List.sum_cons]
+
+/-- **allocated_area_eq, die form**: let the cells that are not fixed modules' together with the rectangles `others`
+    (blockages and fixed modules' cells) tile the die exactly.  Then the area allocated to a non-fixed module is the
+    area of its shape inside the die minus what lies on `others` — "the area of its shape lying on refinable cells". -/
+theorem allocated_area_of_tiling (sqrt : α → α) (εA : α) (iz : Bool) (mods : List (Module α))
+    (refinable fixed : List (Rect α)) (A : Allocation α)
+    (h : createInitialAllocation sqrt εA iz mods refinable fixed = .ok A)
+    (hn : NetOK sqrt mods) (hc : CellsProper (refinable ++ fixed)) (m : Module α) (hm : m ∈ mods)
+    (hnf : m.fixed = false) (die : Rect α) (others : List (Rect α)) (hdie : 0 ≤ die.w ∧ 0 ≤ die.h)
+    (hpw : (((A.cells.filter fun c => !c.rect.fixed).map (·.rect)) ++ others).Pairwise NoOverlap)
+    (hpos : ∀ c ∈ ((A.cells.filter fun c => !c.rect.fixed).map (·.rect)) ++ others, 0 ≤ c.w ∧ 0 ≤ c.h)
+    (hin : ∀ c ∈ ((A.cells.filter fun c => !c.rect.fixed).map (·.rect)) ++ others, Inside c die)
+    (harea : ((((A.cells.filter fun c => !c.rect.fixed).map (·.rect)) ++ others).map Rect.area).sum = die.area) :
+    allocatedSum A.cells m.name =
+      ((shapeOf sqrt m).map fun r => die.areaOverlap r - (others.map fun b => b.areaOverlap r).sum).sum := by
+  rw [allocated_area_eq sqrt εA iz mods refinable fixed A h hn hc m hm hnf]
+  have := sum_overlapSum_swap ((A.cells.filter fun c => !c.rect.fixed).map (·.rect)) (shapeOf sqrt m)
+  rw [List.map_map] at this
+  rw [show (fun c : Cell α => overlapSum c.rect (shapeOf sqrt m)) =
+    (fun c => overlapSum c (shapeOf sqrt m)) ∘ (·.rect) from rfl, this]
+  congr 1
+  apply List.map_congr_left
+  intro r hr
+  have ht := InitAlloc.tiling_overlap die _ hdie hpw hpos hin harea r (hn.shape_nonneg hm r hr)
+  rw [List.map_append, List.sum_append] at ht
+  linarith
+
+/-! ### non-vacuity: a concrete die + netlist (executed at `Rat`) -/
+
+section example_
+/-- a 4×4 die: ground cells `[0,2]×[0,2]` and `[0,4]×[2,4]`, the fixed module `F` on `[2,4]×[0,2]`; the soft module
+    `S` has the rectangle `[1,3]×[1,3]`, the rectangle-less soft module `q` has area 4 and centre `(3,3)`. -/
+def exRefinable : List (Rect ℚ) := [{ cx := 1, cy := 1, w := 2, h := 2 }, { cx := 2, cy := 3, w := 4, h := 2 }]
+def exFixed : List (Rect ℚ) := [{ cx := 3, cy := 1, w := 2, h := 2, fixed := true, hard := true }]
+def exMods : List (Module ℚ) :=
+  [⟨"S", false, [{ cx := 2, cy := 2, w := 2, h := 2 }], [4], none⟩,
+   ⟨"q", false, [], [3, 1], some (3, 3)⟩,
+   ⟨"F", true, [{ cx := 3, cy := 1, w := 2, h := 2, fixed := true, hard := true }], [4], none⟩]
+def exSqrt : ℚ → ℚ := fun _ => 2
+
+/-- the call returns: `F`'s cell first with `{F ↦ 1}`, then `[0,2]²` with `S ↦ 1/4` and the upper strip with
+    `S ↦ 1/4, q ↦ 1/2`; allocated areas `F = 4`, `S = 3`, `q = 4`. -/
+example :
+    (match createInitialAllocation exSqrt 0 false exMods exRefinable exFixed with
+     | .ok A => A.cells.map (fun c => (c.rect.fixed, c.alloc)) ==
+         [(true, [("F", 1)]), (false, [("S", 1/4)]), (false, [("S", 1/4), ("q", 1/2)])] &&
+         A.stats.map (fun e => (e.1, e.2.1)) == [("F", 4), ("S", 3), ("q", 4)]
+     | .error _ => false) = true := by decide +kernel
+
+/-- with include-zero every module is listed in the two ground cells. -/
+example :
+    (match createInitialAllocation exSqrt 0 true exMods exRefinable exFixed with
+     | .ok A => A.cells.map (fun c => c.alloc.map (·.1)) == [["F"], ["S", "q", "F"], ["S", "q", "F"]]
+     | .error _ => false) = true := by decide +kernel
+
+/-- a module that touches no cell makes include-zero fail with `ZeroDivisionError` (documented degenerate case). -/
+example :
+    (match createInitialAllocation exSqrt 0 true
+        (exMods ++ [⟨"far", false, [{ cx := 9, cy := 9, w := 1, h := 1 }], [1], none⟩]) exRefinable exFixed with
+     | .error .zeroDiv => true
+     | _ => false) = true := by decide +kernel
+
+example : NetOK exSqrt exMods where
+  names := by decide
+  sqrt_ok := by
+    intro m hm hr
+    simp only [exMods, List.mem_cons, List.not_mem_nil, or_false] at hm
+    rcases hm with rfl | rfl | rfl
+    · simp at hr
+    · simp only [exSqrt, Module.area, pySum_eq_sum]; norm_num
+    · simp at hr
+  own_disjoint := by
+    intro m hm
+    simp only [exMods, List.mem_cons, List.not_mem_nil, or_false] at hm
+    rcases hm with rfl | rfl | rfl <;> simp
+  proper := by
+    intro m hm r hr
+    simp only [exMods, List.mem_cons, List.not_mem_nil, or_false] at hm
+    rcases hm with rfl | rfl | rfl
+    · simp only [List.mem_singleton] at hr; subst hr; norm_num
+    · simp at hr
+    · simp only [List.mem_singleton] at hr; subst hr; norm_num
+
+example : CellsProper (exRefinable ++ exFixed) := by
+  intro c hc
+  simp only [exRefinable, exFixed, List.cons_append, List.nil_append, List.mem_cons, List.not_mem_nil, or_false] at hc
+  rcases hc with rfl | rfl | rfl <;> norm_num
+
+example : (exRefinable ++ exFixed).Pairwise (fun a b => a.areaOverlap b = 0) := by decide +kernel
+
+example : FixedOK exMods (exRefinable ++ exFixed) where
+  cells_disjoint := by unfold NoOverlap; decide +kernel
+  fixed_have_rects := by
+    intro m hm hf
+    simp only [exMods, List.mem_cons, List.not_mem_nil, or_false] at hm
+    rcases hm with rfl | rfl | rfl <;> simp at hf ⊢
+  fixed_are_cells := by
+    intro m hm hf r hr
+    simp only [exMods, List.mem_cons, List.not_mem_nil, or_false] at hm
+    rcases hm with rfl | rfl | rfl
+    · simp at hf
+    · simp at hf
+    · simp only [List.mem_singleton] at hr; subst hr
+      exact ⟨_, by simp [exRefinable, exFixed], rfl, rfl, rfl, rfl⟩
+  fixed_apart := by
+    intro m1 hm1 m2 hm2 h1 h2 hne
+    simp only [exMods, List.mem_cons, List.not_mem_nil, or_false] at hm1 hm2
+    rcases hm1 with rfl | rfl | rfl <;> rcases hm2 with rfl | rfl | rfl <;> simp at h1 h2 hne
+
+/-- the three cells tile the 4×4 die exactly. -/
+example : ((exRefinable ++ exFixed).map Rect.area).sum = ({ cx := 2, cy := 2, w := 4, h := 4 } : Rect ℚ).area := by
+  decide +kernel
+
+/-- halving the upper strip is a cut, so `[[0,2]², [0,2]×[2,4], [2,4]×[2,4]]` is a dissection of the two ground cells. -/
+example : Dissection exRefinable
+    [({ cx := 1, cy := 1, w := 2, h := 2 } : Rect ℚ), { cx := 1, cy := 3, w := 2, h := 2 },
+     { cx := 3, cy := 3, w := 2, h := 2 }] := by
+  apply Dissection.keep _ _ _ _ ⟨rfl, rfl, rfl, rfl⟩
+  apply Dissection.cut _ ({ cx := 1, cy := 3, w := 2, h := 2 } : Rect ℚ) ({ cx := 3, cy := 3, w := 2, h := 2 } : Rect ℚ)
+  · left
+    refine ⟨(2 : ℚ), ?_, ?_, ?_, ?_, ?_, ?_, ?_, ?_, ?_, ?_⟩ <;> norm_num [Rect.xmin, Rect.xmax, Rect.ymin, Rect.ymax, Rect.two]
+  · apply Dissection.keep _ _ _ _ ⟨rfl, rfl, rfl, rfl⟩
+    apply Dissection.keep _ _ _ _ ⟨rfl, rfl, rfl, rfl⟩
+    exact Dissection.nil
+end example_
+
 end FV.C03
